@@ -44,6 +44,11 @@ fn gen(t: Tier, _seed: u64, emit: &mut dyn FnMut(Case)) {
                 emit(Case::Long { cid, n, s });
             }
         }
+        for n in huge_lengths(bits) {
+            for s in [0usize, 1] {
+                emit(Case::Long { cid, n, s });
+            }
+        }
         if t.thorough() {
             for n in [3 * spw - 1, 3 * spw, 3 * spw + 1, 4 * spw + 1] {
                 for s in 0..noff(bits) {
@@ -80,7 +85,7 @@ fn run_g<A: Sx>(c: &Case, out: &mut Out) {
         }
         Case::Long { n, s, .. } => {
             let nof = noff(A::BITS as usize);
-            for variant in 0..2 {
+            for variant in 0..(if *n > 1100 { 1 } else { 2 }) {
                 let content = syms::<A>(&bg(*n, m, 300 + variant + 10 * (*s as u64), out.seed));
                 one::<A>(&content, *s, (*s + nof / 2 + 1) % nof, out);
             }
